@@ -180,6 +180,16 @@ class ProgGen:
                 return r.pick(vs)
             return self.lit()
         k = r.below(100)
+        if k < 3:
+            # the same two operands in both orders under a non-commutative operator (value numbering must keep them apart)
+            self.features.add('swapped-operands')
+            x, y, p_, q_ = self.fresh(), self.fresh(), self.fresh(), self.fresh()
+            op = r.pick(['-', '-'] + (['/', '%'] if self.o['div'] else []))
+            a, b = self.gen_int(ctx, depth - 2), self.gen_int(ctx, depth - 2)
+            if op != '-':
+                self.features.add('div')
+                a, b = '(%s %% 7 + 9)' % a, '(%s %% 5 + 11)' % b
+            return '{ let %s = %s; let %s = %s; let %s = %s %s %s; let %s = %s %s %s; %s * 3 + %s }' % (x, a, y, b, p_, x, op, y, q_, y, op, x, p_, q_)
         if k < 30:
             op = r.pick(['+', '+', '-', '-', '*'] + (['/', '%'] if self.o['div'] else []))
             a = self.gen_int(ctx, depth - 1)
@@ -354,6 +364,24 @@ class ProgGen:
                     % (name, name, name, i, op, n, name, step, r.pick(['a', 'a', 'a + i', 'a + 1'])))
             return text, name, op, stride
         step = '%s %s %d' % (i, '+' if stride > 0 else '-', abs(stride))
+        if r.chance(1, 6):
+            # a second counter with its own start value and stride, and a value derived from IT (not from the guarded counter)
+            self.features.add('loop-two-counters')
+            j0 = r.pick(['100', '7', '(acc + 50)', '(n - 3)', '(i + 40)'])
+            s2 = r.pick([1, 2, -1, 3])
+            guard_ok = '%s %s %s' % (i, op, n)
+            lit_bound = r.chance(1, 2) and op != '!='
+            if lit_bound:
+                # literal bound: the shape the strength reduction needs most often
+                guard_ok = '%s %s %d' % (i, op, r.pick([4, 10, 20]) if stride > 0 else r.pick([-4, 0, -9]))
+            use = r.pick(['j * %d + %d' % (mult, off), 'j * %d' % mult, '(j * %d + %d) + (i * 2)' % (mult, off)])
+            text = ('  function %s(i: int, acc: int, n: int): int = Main.%st(i, %s, acc, n)\n'
+                    '  function %st(i: int, j: int, acc: int, n: int): int = if %s { Main.%st(%s, j + %d, (acc + (%s)) %% 1000003, n) } else { acc }'
+                    % (name, name, j0, name, guard_ok, name, step, s2, use))
+            if lit_bound:
+                self._bound_for = getattr(self, '_bound_for', {})
+                self._bound_for[name] = int(guard_ok.split()[-1])
+            return text, name, op, stride
         if r.chance(1, 6):
             # a struct-typed loop variable rebuilt in every iteration (scalar replacement / escape analysis of loop values)
             self.features.add('loop-struct-variable')
@@ -730,6 +758,14 @@ class Bx2<T>(val v: T) {
   method <U> conv(extra: U, f: (T, U) -> Opt<U>): Opt<U> = f(this.v, extra)
   method same(o: T): T = this.v
 }
+interface Nd<E> { method edge(): E }
+class Ed(val w: int) {}
+class MyNd(val e: Ed) : Nd<Ed> { method edge(): Ed = this.e }
+class Gr<N: Nd<E>, E>(val n: N, val e: E) { method first(): E = this.n.edge() }
+class Gr2<E, N: Nd<E>>(val n: N, val e: E) { method first(): E = this.n.edge() }
+interface Sh0 { method sh(k: int): int }
+class Sa0(val a: int) : Sh0 { method sh(k: int): int = this.a + k }
+class Nb0(val a: int) {}
 '''
 
 INFER_HELPERS = '''  function <T> pick(f: (int) -> Opt<T>, d: T): T = f(1).orElse(d)
@@ -739,12 +775,24 @@ INFER_HELPERS = '''  function <T> pick(f: (int) -> Opt<T>, d: T): T = f(1).orEls
   function <A, B> mk(a: A, f: (A) -> B): Pr<A, B> = Pr.init(a, f(a))
   function <T> first(o: Opt<T>, p: Opt<T>): Opt<T> = match o { Som(_) -> o, Non -> p }
   function f3w(f: (int, int, int) -> int, k: int): int = f(k, k + 1, k + 2)
+  function <N: Nd<E>, E> firstOf(n: N, e: E): E = n.edge()
+  function <T: Sh0> useSh0(x: T): int = x.sh(1)
+  function appNb(f: (Nb0) -> int): int = f(Nb0.init(2))
+  function appSa(f: (Sa0) -> int): int = f(Sa0.init(2))
 '''
 
 # bodies of type int whose acceptance depends on how much the checker infers from hints: lambdas whose body needs the
 # expected type (a generic constructor without type arguments, a nested un-annotated lambda), type arguments solved from a
 # lambda argument, from another argument, or from the return-type hint
 INFER_TEMPLATES = [
+    # a bounded generic function used as a value: its type argument comes from the expected function type
+    '{ let @x: (Sa0) -> int = Main.useSh0; @x(Sa0.init(@k)) }',
+    'Main.appSa(Main.useSh0) + @k',
+    # a bound that names a LATER type parameter (and the mirrored declaration order): inferred vs written type arguments
+    '{ let @x = Gr.init(MyNd.init(Ed.init(@k)), Ed.init(@j)); @x.first().w }',
+    '{ let @x = Gr2.init(MyNd.init(Ed.init(@k)), Ed.init(@j)); @x.first().w + @x.e.w }',
+    'Main.firstOf(MyNd.init(Ed.init(@k)), Ed.init(@j)).w',
+    '{ let @x = Opt.Som(Gr.init(MyNd.init(Ed.init(@k)), Ed.init(@j))); match @x { Som(@y) -> @y.e.w, Non -> 0 } }',
     'Main.pick((@x) -> Opt.Non(), @k)',
     'Main.pick((@x) -> Opt.Som(@x + @k), 0)',
     'Main.pick((@x) -> Main.first(Opt.Non(), Opt.Som(@x)), @k)',
@@ -805,6 +853,8 @@ class Pr2(val a: int, val b: int) {}
 
 
 INFER_VIOLATIONS = [
+    ('bound-violation-solved-from-hint', '{ let @x: (Nb0) -> int = Main.useSh0; @x(Nb0.init(@k)) }'),
+    ('bound-violation-solved-from-hint', 'Main.appNb(Main.useSh0) + @k'),
     ('lambda-result-vs-fixed-type-parameter', 'Main.twice((@x) -> "s", @k)'),
     ('lambda-result-vs-fixed-type-parameter', 'Main.fold(@k, @j, (@x, @y) -> "not a number") + 1'),
     ('lambda-result-vs-fixed-type-parameter', 'Main.mk(@k, (@x) -> @x).snd.orElse(0)'),
